@@ -342,8 +342,9 @@ ATTRS = {"requests", "total_outbufs_len", "connected", "will_close", "close_when
 FILTERED_ATTRS = {"request", "sent_continue", "last_activity", "current_outbuf_count"}
 
 
-def model_params(scn):
-    return "%d,%d,%d,%d" % (scn.lookahead, scn.send_bytes, len(CONT), scn.n_workers)
+def model_params(scn, unlocked=False):
+    """unlocked=True selects the pre-8bcf05e shape of handle_write (the model keeps it for the F18 witness)."""
+    return "%d,%d,%d,%d,%d" % (scn.lookahead, scn.send_bytes, len(CONT), scn.n_workers, 1 if unlocked else 0)
 
 
 def model_script(scn, world):
